@@ -155,7 +155,8 @@ fn analyse<E: Residual>(
     let out = match res {
         Err(e) => {
             ent[2] += 1;
-            if expect != Expect::Any && !(below_noise_floor(opt_index) && e.starts_with("NotConverged")) {
+            let off_window = key["off_window"].as_bool().unwrap_or(false);
+            if expect != Expect::Any && !((below_noise_floor(opt_index) || off_window) && e.starts_with("NotConverged")) {
                 fail("error_instead_of_verdict", format!("stability_analysis returns an error instead of a verdict: {e}"), json!({"error": e}), vec![], vec![]);
             } else {
                 tally.errors_any += 1;
@@ -233,6 +234,7 @@ fn analyse<E: Residual>(
                     failures.push(json!({"key": key, "kind": format!("{kind}:flash"), "type": "flash_failed", "what": "flash of a feed inside the two-phase region returns two copies of one phase", "feed": state_json(feed)}));
                 }
             }
+            Err(e) if key["off_window"].as_bool().unwrap_or(false) && e == "NotConverged(stability analysis)" => tally.errors_any += 1,
             Err(e) => failures.push(json!({"key": key, "kind": format!("{kind}:flash"), "type": "flash_failed", "what": format!("flash of a feed strictly inside the two-phase region fails: {e}"), "detail": {"error": e}, "feed": state_json(feed)})),
         }
     }
@@ -537,6 +539,167 @@ fn tie_feed<E: Residual>(feed: &State<E>, key: &Value, opts_i: usize, tie: &mut 
     tie.stab_cases.push((format!("[{}]", stab_items.join("; ")), json!({"key": key, "expected": expected, "trials": stab_meta})));
 }
 
+
+// ------------------------------------------------------------------------------------------------
+// flashes started from the converged flash of ANOTHER condition of the same mixture (pressure / composition / temperature sweeps)
+
+/// (system, feed state, its converged flash without initial state, key)
+type Pool<E> = Vec<(String, State<E>, PhaseEquilibrium<E, 2>, Value)>;
+
+#[derive(Default)]
+struct Sweep {
+    cases: Vec<(String, Value)>,
+    combos: usize,
+    ok: usize,
+    from_guess: usize,
+    fell_back: usize,
+    worst_dx: f64,
+}
+
+fn err_code(e: &str) -> usize {
+    if e.starts_with("NoPhaseSplit") {
+        0
+    } else if e.starts_with("IterationFailed") {
+        1
+    } else if e.starts_with("NotConverged") {
+        2
+    } else if e.starts_with("TrivialSolution") {
+        3
+    } else {
+        4
+    }
+}
+
+/// per stage of the start cascade of tp_flash: (stage, iteration started, converged), from the event trace of the real function
+fn stages_of(ev: &[feos_core::verif_c12::VerifEvent]) -> Vec<(String, bool, bool)> {
+    use feos_core::verif_c12::VerifEvent as V;
+    let mut out: Vec<(String, bool, bool)> = Vec::new();
+    for e in ev {
+        match e {
+            V::Stage { solver: "tp_flash", stage } => out.push((stage.to_string(), false, false)),
+            V::IterStart { solver: "tp_flash", .. } => {
+                if let Some(l) = out.last_mut() {
+                    l.1 = true
+                }
+            }
+            V::Converged { solver: "tp_flash", .. } => {
+                if let Some(l) = out.last_mut() {
+                    l.2 = true
+                }
+            }
+            _ => {}
+        }
+    }
+    out
+}
+
+fn traced_flash<E: Residual>(feed: &State<E>, init: Option<&PhaseEquilibrium<E, 2>>) -> (Result<PhaseEquilibrium<E, 2>, String>, Vec<(String, bool, bool)>) {
+    feos_core::verif_c12::verif_trace_start();
+    let r = run_guard(|| feed.tp_flash(init, SolverOptions::default(), None));
+    let ev = feos_core::verif_c12::verif_trace_take();
+    (r, stages_of(&ev))
+}
+
+fn stage_code(s: &str) -> usize {
+    match s {
+        "guess" => 0,
+        "stability_1" => 1,
+        _ => 2,
+    }
+}
+
+/// all ordered (feed, guess) pairs of one system (strided down to `cap`)
+fn sweep_system<E: Residual>(entries: &[&(String, State<E>, PhaseEquilibrium<E, 2>, Value)], cap: usize, sw: &mut Sweep, failures: &mut Vec<Value>) {
+    let n = entries.len();
+    if n < 2 {
+        return;
+    }
+    let total = n * (n - 1);
+    let stride = (total / cap.max(1)).max(1);
+    let mut idx = 0usize;
+    for (i, (sys, feed, reference, key)) in entries.iter().map(|e| (&e.0, &e.1, &e.2, &e.3)).enumerate() {
+        // the flash without initial state, traced: what the stability-analysis start delivers for this feed
+        let (r_none, st_none) = traced_flash(feed, None);
+        let stab_in = {
+            let s1 = st_none.iter().find(|s| s.0 == "stability_1");
+            let s2 = st_none.iter().find(|s| s.0 == "stability_2");
+            let final_err = r_none.as_ref().err().map(|e| err_code(e)).unwrap_or(9);
+            match (s1, s2) {
+                (Some(a), _) if !a.1 => format!("StErr {final_err}"),
+                (Some(a), None) if a.2 => "StOne AOk".to_string(),
+                (Some(_), None) => format!("StOne (AErr {final_err})"),
+                (Some(_), Some(b)) if b.2 => "StTwo (AErr 9) AOk".to_string(),
+                (Some(_), Some(_)) => format!("StTwo (AErr 9) (AErr {final_err})"),
+                (None, _) => "StErr 9".to_string(),
+            }
+        };
+        for (j, guess) in entries.iter().enumerate() {
+            if i == j {
+                continue;
+            }
+            idx += 1;
+            if idx % stride != 0 {
+                continue;
+            }
+            sw.combos += 1;
+            let (r, st) = traced_flash(feed, Some(&guess.2));
+            let pair_key = json!({"sys": sys, "feed": key, "guess": guess.3, "which": "inside:flash_with_initial_state",
+                "sweep": {"sys": sys, "feed_spec": key["spec"], "guess_spec": guess.3["spec"]}});
+            // ---- the clause of the property: the feed is inside the two-phase region, the flash must deliver the phase split
+            match &r {
+                Ok(v) => {
+                    sw.ok += 1;
+                    let dx = (0..v.liquid().molefracs.len())
+                        .map(|c| (v.liquid().molefracs[c] - reference.liquid().molefracs[c]).abs().max((v.vapor().molefracs[c] - reference.vapor().molefracs[c]).abs()))
+                        .fold(0.0, f64::max);
+                    sw.worst_dx = sw.worst_dx.max(dx);
+                    let d = max_rel_dev(v.vapor().partial_density.to_reduced().as_slice().unwrap(), v.liquid().partial_density.to_reduced().as_slice().unwrap());
+                    if !(dx <= 1e-6) || !(d >= TRIVIAL) {
+                        failures.push(json!({"key": pair_key, "kind": "inside:flash_with_initial_state", "type": "flash_with_initial_state_differs",
+                            "what": format!("flash started from the converged flash of another condition returns a different / degenerate phase split (max composition difference {dx:e}, phase distinctness {d:e})"),
+                            "feed": state_json(feed), "detail": {"liquid": state_json(v.liquid()), "vapor": state_json(v.vapor()), "reference_liquid": state_json(reference.liquid()), "reference_vapor": state_json(reference.vapor())}}));
+                    }
+                }
+                Err(e) => failures.push(json!({"key": pair_key, "kind": "inside:flash_with_initial_state", "type": "flash_with_initial_state_failed",
+                    "what": format!("flash of a feed strictly inside the two-phase region, started from the converged flash of another condition of the same mixture, fails: {e} (the flash without initial state finds the split)"),
+                    "feed": state_json(feed), "detail": {"error": e, "stages": st.iter().map(|s| json!([s.0, s.1, s.2])).collect::<Vec<_>>()}})),
+            }
+            // ---- the start cascade against the model FlashCascadeC07.cascade
+            let g = st.iter().find(|s| s.0 == "guess");
+            let guess_in = match g {
+                None => "GNone".to_string(),
+                Some(a) if !a.1 => format!("GUpdateFailed {}", r.as_ref().err().map(|e| err_code(e)).unwrap_or(9)),
+                Some(a) if a.2 => "GAttempt AOk".to_string(),
+                Some(_) => "GAttempt (AErr 9)".to_string(),
+            };
+            if g.map(|a| a.2).unwrap_or(false) {
+                sw.from_guess += 1;
+            } else {
+                sw.fell_back += 1;
+            }
+            let visited: Vec<usize> = st.iter().map(|s| stage_code(&s.0)).collect();
+            let result = match &r {
+                Ok(_) => (1usize, st.last().map(|s| stage_code(&s.0)).unwrap_or(9)),
+                Err(e) => (0usize, err_code(e)),
+            };
+            sw.cases.push((format!("({guess_in}, {stab_in})"), json!({"key": pair_key, "guess_in": guess_in, "stab_in": stab_in, "impl_visited": visited, "impl_result": [result.0, result.1]})));
+        }
+    }
+}
+
+fn sweep_pool<E: Residual>(pool: &Pool<E>, cap_per_system: usize, sw: &mut Sweep, failures: &mut Vec<Value>) {
+    let mut names: Vec<&String> = Vec::new();
+    for e in pool {
+        if !names.contains(&&e.0) {
+            names.push(&e.0);
+        }
+    }
+    for nm in names {
+        let entries: Vec<&(String, State<E>, PhaseEquilibrium<E, 2>, Value)> = pool.iter().filter(|e| &e.0 == nm).collect();
+        sweep_system(&entries, cap_per_system, sw, failures);
+    }
+}
+
 // ------------------------------------------------------------------------------------------------
 // systems
 
@@ -586,6 +749,8 @@ struct PointSpec {
     opts: usize,
     /// if given: the inside feed sits at p_dew + frac (p_bubble - p_dew) (must respect the 2 % margins) instead of u_in
     frac: Option<f64>,
+    /// the point lies outside the window of C05 (asymmetric systems): NotConverged of the stability analysis is counted, not judged
+    off_window: bool,
 }
 
 fn options(i: usize) -> SolverOptions {
@@ -625,12 +790,13 @@ fn mixture_point<E: Residual>(
     failures: &mut Vec<Value>,
     counts: &mut [usize; 4],
     keep: &mut Vec<(State<E>, Value, usize)>,
+    pool: &mut Pool<E>,
 ) {
     let temp = Temperature::from_reduced(sp.t);
     let spec = Array1::from_vec(sp.x.clone());
     let moles = Moles::from_reduced(spec.clone());
     let key = |p: f64, which: &str| json!({"sys": sysname, "T": sp.t, "x": sp.x, "p": p, "which": which, "opts": sp.opts,
-        "spec": {"T": sp.t, "x": sp.x, "u_in": sp.u_in, "f_liq": sp.f_liq, "f_vap": sp.f_vap, "opts": sp.opts, "frac": sp.frac}});
+        "spec": {"T": sp.t, "x": sp.x, "u_in": sp.u_in, "f_liq": sp.f_liq, "f_vap": sp.f_vap, "opts": sp.opts, "frac": sp.frac, "off_window": sp.off_window}, "off_window": sp.off_window});
     let key_o = |p: f64, which: &str, o: usize| { let mut k = key(p, which); k["opts"] = json!(o); k };
     counts[0] += 1;
     let bub = run_guard(|| PhaseEquilibrium::bubble_point(eos, temp, &spec, None, None, Default::default()));
@@ -687,6 +853,7 @@ fn mixture_point<E: Residual>(
             }
             // the phases of the converged flash are stable
             if let Ok(vle) = run_guard(|| s.tp_flash(None, SolverOptions::default(), None)) {
+                pool.push((sysname.to_string(), s.clone(), vle.clone(), key(p, "inside")));
                 for (nm, ph) in [("flash:vapor", vle.vapor()), ("flash:liquid", vle.liquid())] {
                     for &o in &eq_opts {
                         let k = key_o(p, nm, o);
@@ -747,35 +914,50 @@ fn pure_grid<E: Residual>(eos: &Arc<E>, sysname: &str, t: f64, ngrid: usize, opt
 
 
 /// re-run one point of the support search:  sys = "pcsaft:a|b[|c]" or "peng_robinson:n",  spec = the "spec" object of a failure key
-fn run_spec(sysname: &str, spec: &Value) -> (Vec<Value>, Value) {
+fn spec_of(spec: &Value) -> PointSpec {
+    PointSpec {
+        t: spec["T"].as_f64().unwrap(),
+        x: spec["x"].as_array().unwrap().iter().map(|v| v.as_f64().unwrap()).collect(),
+        u_in: spec["u_in"].as_f64().unwrap(),
+        f_liq: spec["f_liq"].as_f64().unwrap(),
+        f_vap: spec["f_vap"].as_f64().unwrap(),
+        opts: spec["opts"].as_u64().unwrap() as usize,
+        frac: spec["frac"].as_f64(),
+        off_window: spec["off_window"].as_bool().unwrap_or(false),
+    }
+}
+
+/// re-run one point of the support search:  sys = "pcsaft:a|b[|c]" or "peng_robinson:n",  spec = the "spec" object of a failure key;
+/// with `guess` (the spec of another point of the same system): also the flashes of each point started from the other's result
+fn run_spec(sysname: &str, spec: &Value, guess: Option<&Value>) -> (Vec<Value>, Value) {
     let mut tally = Tally::new();
     let mut goals = Goals { tpd: Vec::new() };
     let mut failures = Vec::new();
     let mut counts = [0usize; 4];
-    fn go<E: Residual>(eos: &Arc<E>, sysname: &str, spec: &Value, tally: &mut Tally, goals: &mut Goals, failures: &mut Vec<Value>, counts: &mut [usize; 4]) {
+    let mut sw = Sweep::default();
+    #[allow(clippy::too_many_arguments)]
+    fn go<E: Residual>(eos: &Arc<E>, sysname: &str, spec: &Value, guess: Option<&Value>, tally: &mut Tally, goals: &mut Goals, failures: &mut Vec<Value>, counts: &mut [usize; 4], sw: &mut Sweep) {
         if spec["pure"].as_bool().unwrap_or(false) {
             pure_grid(eos, sysname, spec["T"].as_f64().unwrap(), spec["ngrid"].as_u64().unwrap() as usize, spec["opts"].as_u64().unwrap() as usize, tally, goals, failures, counts);
         } else {
-            let sp = PointSpec {
-                t: spec["T"].as_f64().unwrap(),
-                x: spec["x"].as_array().unwrap().iter().map(|v| v.as_f64().unwrap()).collect(),
-                u_in: spec["u_in"].as_f64().unwrap(),
-                f_liq: spec["f_liq"].as_f64().unwrap(),
-                f_vap: spec["f_vap"].as_f64().unwrap(),
-                opts: spec["opts"].as_u64().unwrap() as usize,
-                frac: spec["frac"].as_f64(),
-            };
             let mut keep = Vec::new();
-            mixture_point(eos, sysname, &sp, tally, goals, failures, counts, &mut keep);
+            let mut pool: Pool<E> = Vec::new();
+            mixture_point(eos, sysname, &spec_of(spec), tally, goals, failures, counts, &mut keep, &mut pool);
+            if let Some(g) = guess {
+                let mut scratch = Vec::new();
+                mixture_point(eos, sysname, &spec_of(g), tally, goals, &mut scratch, counts, &mut keep, &mut pool);
+                sweep_pool(&pool, usize::MAX, sw, failures);
+            }
         }
     }
     if let Some(rest) = sysname.strip_prefix("pcsaft:") {
         let names: Vec<&str> = rest.split('|').collect();
-        go(&pcsaft(&names), sysname, spec, &mut tally, &mut goals, &mut failures, &mut counts);
+        go(&pcsaft(&names), sysname, spec, guess, &mut tally, &mut goals, &mut failures, &mut counts, &mut sw);
     } else if let Some(n) = sysname.strip_prefix("peng_robinson:") {
-        go(&Arc::new(configs::peng_robinson(n.parse().unwrap())), sysname, spec, &mut tally, &mut goals, &mut failures, &mut counts);
+        go(&Arc::new(configs::peng_robinson(n.parse().unwrap())), sysname, spec, guess, &mut tally, &mut goals, &mut failures, &mut counts, &mut sw);
     }
-    (failures, json!({"states_analysed": tally.analysed, "verdicts_by_kind_[stable,unstable,error]": tally.by_kind, "flashes_attempted": tally.flashes, "flashes_found": tally.flash_ok}))
+    (failures, json!({"states_analysed": tally.analysed, "verdicts_by_kind_[stable,unstable,error]": tally.by_kind, "flashes_attempted": tally.flashes, "flashes_found": tally.flash_ok,
+        "flashes_with_initial_state": sw.combos, "flashes_with_initial_state_found": sw.ok}))
 }
 
 /// a flash input recorded for C05 ("a|b|T|x|s|ntot": feed at p_dew + s (p_bubble - p_dew)): the C07 clauses on the same feed
@@ -810,7 +992,8 @@ fn main() {
     let full = cli.full();
     let out = cli.out.clone();
     if let (Some(sys), Some(spec)) = (cli.opt("--sys"), cli.opt("--spec")) {
-        let (failures, summary) = run_spec(&sys, &serde_json::from_str(&spec).unwrap());
+        let guess: Option<Value> = cli.opt("--guess").map(|g| serde_json::from_str(&g).unwrap());
+        let (failures, summary) = run_spec(&sys, &serde_json::from_str(&spec).unwrap(), guess.as_ref());
         cli.write_impl(&json!({"property": "C07", "replay": {"sys": sys, "spec": spec}, "failures": failures, "summary": summary}));
         return;
     }
@@ -859,9 +1042,12 @@ fn main() {
         f_vap: if rng.below(3) == 0 { 1.0 - MARGIN } else { rng.range(0.3, 1.0 - MARGIN) },
         opts: if rng.below(3) == 0 { 1 + rng.below(N_OPTS - 1) } else { 0 },
         frac: None,
+        off_window: false,
     };
     let mut keep_pc: Vec<(State<PcSaft>, Value, usize)> = Vec::new();
     let mut keep_pr: Vec<(State<PengRobinson>, Value, usize)> = Vec::new();
+    let mut pool_pc: Pool<PcSaft> = Vec::new();
+    let mut pool_pr: Pool<PengRobinson> = Vec::new();
     let mut systems = Vec::new();
     for &(i, j) in &chosen {
         let eos = pcsaft(&[names[i].as_str(), names[j].as_str()]);
@@ -870,7 +1056,7 @@ fn main() {
         systems.push(nm.clone());
         for _ in 0..pts {
             let sp = spec(&mut rng, tlow, 2);
-            mixture_point(&eos, &nm, &sp, &mut tally, &mut goals, &mut failures, &mut counts, &mut keep_pc);
+            mixture_point(&eos, &nm, &sp, &mut tally, &mut goals, &mut failures, &mut counts, &mut keep_pc, &mut pool_pc);
         }
     }
     // asymmetric light-gas / heavier-alkane binaries (slowly converging flashes just below the bubble pressure). These lie OUTSIDE the
@@ -891,8 +1077,34 @@ fn main() {
             if !systems.contains(&tag) {
                 systems.push(tag);
             }
-            let sp = PointSpec { t: *t, x: vec![*z1, 1.0 - z1], u_in: 0.5, f_liq: 1.0 + MARGIN, f_vap: 1.0 - MARGIN, opts: 0, frac: Some(*f) };
-            mixture_point(&eos, &nm, &sp, &mut tally, &mut goals, &mut failures, &mut counts, &mut keep_pc);
+            let sp = PointSpec { t: *t, x: vec![*z1, 1.0 - z1], u_in: 0.5, f_liq: 1.0 + MARGIN, f_vap: 1.0 - MARGIN, opts: 0, frac: Some(*f), off_window: true };
+            mixture_point(&eos, &nm, &sp, &mut tally, &mut goals, &mut failures, &mut counts, &mut keep_pc, &mut pool_pc);
+        }
+    }
+    {
+        // a coarse (T, z1, position) grid of the same kind of system: feeds whose converged flashes serve as initial states of each
+        // other (composition / pressure / temperature sweeps); NotConverged of the stability analysis is counted, not judged, here
+        let grid_pairs: Vec<[&str; 2]> = if full { vec![["methane", "butane"], ["methane", "hexane"], ["carbon dioxide", "hexane"], ["ethane", "heptane"]] }
+            else { vec![["methane", "butane"], ["carbon dioxide", "hexane"]] };
+        for pair in &grid_pairs {
+            let eos = pcsaft(&pair[..]);
+            let nm = format!("pcsaft:{}|{}", pair[0], pair[1]);
+            for t in [250.0, 300.0] {
+                let tag = format!("{nm}@{t}K");
+                if !systems.contains(&tag) {
+                    systems.push(tag);
+                }
+                for z1 in [0.2, 0.5, 0.8] {
+                    let mut fr = vec![0.1, 0.5, 0.9];
+                    if full {
+                        fr.push(rng.range(0.05, 0.95));
+                    }
+                    for f in fr {
+                        let sp = PointSpec { t, x: vec![z1, 1.0 - z1], u_in: 0.5, f_liq: 1.0 + MARGIN, f_vap: 1.0 - MARGIN, opts: 0, frac: Some(f), off_window: true };
+                        mixture_point(&eos, &nm, &sp, &mut tally, &mut goals, &mut failures, &mut counts, &mut keep_pc, &mut pool_pc);
+                    }
+                }
+            }
         }
     }
     // ternaries (PC-SAFT) and Peng-Robinson binary / ternary
@@ -909,7 +1121,7 @@ fn main() {
             systems.push(nm.clone());
             for _ in 0..(if full { 3 * pts } else { pts }) {
                 let sp = spec(&mut rng, tlow, 3);
-                mixture_point(&eos, &nm, &sp, &mut tally, &mut goals, &mut failures, &mut counts, &mut keep_pc);
+                mixture_point(&eos, &nm, &sp, &mut tally, &mut goals, &mut failures, &mut counts, &mut keep_pc, &mut pool_pc);
             }
         }
     }
@@ -921,7 +1133,7 @@ fn main() {
             systems.push(nm.clone());
             for _ in 0..(if full { 6 * pts } else { pts }) {
                 let sp = spec(&mut rng, tlow, n);
-                mixture_point(&eos, &nm, &sp, &mut tally, &mut goals, &mut failures, &mut counts, &mut keep_pr);
+                mixture_point(&eos, &nm, &sp, &mut tally, &mut goals, &mut failures, &mut counts, &mut keep_pr, &mut pool_pr);
             }
         }
     }
@@ -1006,6 +1218,21 @@ fn main() {
         triv_files.push(json!({"file": name, "cases": cs.iter().map(|c| c.1.clone()).collect::<Vec<_>>()}));
     }
 
+    // ---- flashes with an initial state from another condition (support search) + start cascade of tp_flash vs the model
+    let mut sw = Sweep::default();
+    let cap = if full { 2000 } else { 150 };
+    sweep_pool(&pool_pc, cap, &mut sw, &mut failures);
+    sweep_pool(&pool_pr, cap, &mut sw, &mut failures);
+    let mut casc_files = Vec::new();
+    for (ci, cs) in sw.cases.chunks(400).enumerate() {
+        let mut v = String::from("From Coq Require Import List String.\nFrom FeosVerif Require Import FlashCascadeC07.\nImport ListNotations.\nOpen Scope string_scope.\nSet Printing Width 1000000.\nSet Printing Depth 1000000.\n");
+        v.push_str(&format!("Definition cases : list (guess_in * stab_in) := [\n  {}\n].\n", cs.iter().map(|c| c.0.clone()).collect::<Vec<_>>().join(";\n  ")));
+        v.push_str("Eval vm_compute in (\"CASC\", map run_cascade cases).\n");
+        let name = format!("casc_{ci}.v");
+        std::fs::write(format!("{out}/{name}"), v).unwrap();
+        casc_files.push(json!({"file": name, "cases": cs.iter().map(|c| c.1.clone()).collect::<Vec<_>>()}));
+    }
+
     // ---- tpd goal files
     let mut tpd_files = Vec::new();
     // every returned trial phase was recomputed in f64 above; a seeded subset also goes through Coq's interval arithmetic
@@ -1030,6 +1257,9 @@ fn main() {
     let res = json!({
         "property": "C07", "tier": cli.tier, "seed": cli.seed,
         "tpd_goals": tpd_files,
+        "cascade": casc_files,
+        "sweep": {"flashes_with_initial_state": sw.combos, "found": sw.ok, "delivered_by_the_guess": sw.from_guess, "fell_back_to_the_stability_start_or_failed": sw.fell_back,
+                  "largest_composition_difference_to_the_flash_without_initial_state": sw.worst_dx, "feeds_in_pools": pool_pc.len() + pool_pr.len()},
         "step_goals": step_files, "ctrl": ctrl_files, "stab": stab_files, "triv": triv_files,
         "tie": {"feeds_kept": keep_pc.len() + keep_pr.len(), "substitution_steps_seen": tie.n_ss_steps, "newton_steps_seen_inside_minimize_tpd": tie.n_newton_steps,
                 "newton_steps_hooked": tie.n_newton_direct, "steps_consistent_with_both_or_neither_kind_(flag_not_compared)": tie.undetermined_steps, "formula_mismatch": tie.formula_mismatch},
